@@ -25,12 +25,12 @@ import (
 // ---------- HTTP reply bodies ----------
 
 type HTTPReplyCase struct {
-	Limit   int      `json:"limit"`   // configured maximum response length
-	Fields  []KV     `json:"fields"`  // reply dictionary, in emission order
-	RawBody []byte   `json:"raw"`     // used instead of Fields when non-nil
-	Framing string   `json:"framing"` // length | chunked | close
-	PadTo   int      `json:"pad_to"`  // pad body with a trailing key up to this size (oversize replies)
-	Status  int      `json:"status"`
+	Limit   int    `json:"limit"`   // configured maximum response length
+	Fields  []KV   `json:"fields"`  // reply dictionary, in emission order
+	RawBody []byte `json:"raw"`     // used instead of Fields when non-nil
+	Framing string `json:"framing"` // length | chunked | close
+	PadTo   int    `json:"pad_to"`  // pad body with a trailing key up to this size (oversize replies)
+	Status  int    `json:"status"`
 }
 type KV struct {
 	K string `json:"k"`
